@@ -31,6 +31,9 @@ func sceneQuery(o ReqOpts) {
 	// a second service whose name extends the first one's, bound by provider 0
 	Define(k, ctx, Svc+"x")
 	bx := Binding(k, ctx, "bx", Svc+"x", s.Provs[0], s.Owner, 0, 0, false)
+	// and a third one whose name differs from the first one's only in case (names are case-sensitive keys)
+	Define(k, ctx, SvcUp)
+	bu := Binding(k, ctx, "bu", SvcUp, s.Provs[0], s.Owner, 0, 0, false)
 	stranger := vf.Addr("stranger", 20)
 	distinct(append(append([]sdk.AccAddress{}, s.Provs...), stranger, s.Owner, s.Consumer)...)
 	gctx := sdk.WrapSDKContext(ctx)
@@ -46,6 +49,8 @@ func sceneQuery(o ReqOpts) {
 		if err == nil && r != nil {
 			chk("C17", vf.And(r.ServiceDefinition.Name == Svc, r.ServiceDefinition.Schemas == Schemas), "definition-is-the-stored-one")
 		}
+		ru, err := k.Definition(gctx, &types.QueryDefinitionRequest{ServiceName: SvcUp})
+		chk("C17", vf.And(err == nil, ru != nil && ru.ServiceDefinition.Name == SvcUp), "definition-by-its-exact-name")
 		_, err = k.Definition(gctx, &types.QueryDefinitionRequest{ServiceName: "nope"})
 		chk("C17", err != nil, "unknown-definition-not-found")
 		bz, lerr := lq(types.QueryDefinition, types.QueryDefinitionParams{ServiceName: Svc})
@@ -63,6 +68,8 @@ func sceneQuery(o ReqOpts) {
 			chk("C17", vf.And(lerr == nil, vf.FromAminoJSON(bz, &lb) == nil), "legacy-binding-found")
 			chk("C17", sameBinding(lb, b), "legacy-binding-same")
 		}
+		ru, err := k.Binding(gctx, &types.QueryBindingRequest{ServiceName: SvcUp, Provider: s.Provs[0]})
+		chk("C17", vf.And(err == nil, ru != nil && ru.ServiceBinding.ServiceName == SvcUp && ru.ServiceBinding.Deposit.AmountOf(Denom).Equal(bu.Deposit)), "binding-by-its-exact-name")
 		_, err = k.Binding(gctx, &types.QueryBindingRequest{ServiceName: Svc, Provider: stranger})
 		chk("C17", err != nil, "unknown-binding-not-found")
 	case 2: // bindings of a service, optionally of one owner; "svc" must not list "svcx"
@@ -86,6 +93,10 @@ func sceneQuery(o ReqOpts) {
 		rx, err := k.Bindings(gctx, &types.QueryBindingsRequest{ServiceName: Svc + "x"})
 		chk("C17 C15 C18", vf.And(err == nil, rx != nil && len(rx.ServiceBindings) == 1), "extended-name-lists-only-its-own")
 		_ = bx
+		ru, err := k.Bindings(gctx, &types.QueryBindingsRequest{ServiceName: SvcUp})
+		chk("C17 C15 C18", vf.And(err == nil, ru != nil && len(ru.ServiceBindings) == 1 && ru.ServiceBindings[0].ServiceName == SvcUp), "name-in-another-case-lists-only-its-own")
+		ruo, err := k.Bindings(gctx, &types.QueryBindingsRequest{ServiceName: SvcUp, Owner: s.Owner})
+		chk("C17 C15 C18", vf.And(err == nil, ruo != nil && len(ruo.ServiceBindings) == 1 && ruo.ServiceBindings[0].ServiceName == SvcUp), "name-in-another-case-lists-only-its-own-by-owner")
 		bz, lerr := lq(types.QueryBindings, types.QueryBindingsParams{ServiceName: Svc, Owner: s.Owner})
 		var lb []*types.ServiceBinding
 		chk("C17", vf.And(lerr == nil, vf.FromAminoJSON(bz, &lb) == nil), "legacy-bindings-ok")
@@ -204,9 +215,14 @@ func sceneQuery(o ReqOpts) {
 			}
 		}
 	case 9: // earned fees
+		// provider 0 also holds earnings in another denomination (earned while the base denomination was another)
+		g := vf.Amount("earnedGold0")
+		vf.Assume(g.IsPositive())
+		k.SetEarnedFees(ctx, s.Provs[0], sdk.Coins{sdk.Coin{Denom: Gold, Amount: g}})
 		for i := 0; i < s.N; i++ {
 			r, err := k.EarnedFees(gctx, &types.QueryEarnedFeesRequest{Provider: s.Provs[i]})
 			chk("C17 C18", vf.And(err == nil, r != nil && r.Fees.AmountOf(Denom).Equal(s.Earned0[i])), "earned-fees-are-the-stored-ones")
+			chk("C17 C18", vf.And(err == nil, r != nil && r.Fees.AmountOf(Gold).IsZero() == (i != 0) && (i != 0 || r.Fees.AmountOf(Gold).Equal(g))), "earned-fees-in-every-denomination")
 			bz, lerr := lq(types.QueryEarnedFees, types.QueryEarnedFeesParams{Provider: s.Provs[i]})
 			var lf sdk.Coins
 			chk("C17", vf.All(lerr == nil, vf.FromAminoJSON(bz, &lf) == nil, lf.AmountOf(Denom).Equal(s.Earned0[i])), "legacy-earned-fees-same")
